@@ -47,7 +47,7 @@ register(
     "(R3e) the entry's cleaning flag is false only on paths the document-synchronisation handlers cannot reach. "
     "Does not decide equality with a freshly built index for every history.",
     [r3.r3a_clean_before_append, r3.r3b_failure_path_readonly, r3.r3e_who_skips_cleaning, r3.r3h_wrappers_always_analyse,
-     r2.r2f_no_whole_value_insert, r3d.r3d_hit, r3d.r3d_stamp_origin, r3d.r3d_bump, r8.r11a_analyze_then_publish, r10.r10h_analysed_marker],
+     r2.r2f_no_whole_value_insert, r3d.r3d_hit, r3d.r3d_stamp_origin, r3d.r3d_bump, r8.r11a_analyze_then_publish, r10.r10h_analysed_marker, r3.r3i_every_analysis_parses],
 )
 
 register(
@@ -57,7 +57,7 @@ register(
     "analysis, which could run in parallel with did_open/did_change; (R3g) the cleaning analysis is never fed text read "
     "directly from disk. Which content wins for each timing is a schedule "
     "property and is not decided.",
-    [r3.r3e_who_skips_cleaning, r3.r3e2_parallel_scan, r3.r3g_buffer_content, r2.r2f_no_whole_value_insert, r3.r3a_clean_before_append, r10.r10h_analysed_marker, r8.r11a_analyze_then_publish, r2.r2g_canonicaliser_whole_path],
+    [r3.r3e_who_skips_cleaning, r3.r3e2_parallel_scan, r3.r3g_buffer_content, r2.r2f_no_whole_value_insert, r3.r3a_clean_before_append, r10.r10h_analysed_marker, r8.r11a_analyze_then_publish, r2.r2g_canonicaliser_whole_path, r3.r3i_every_analysis_parses],
 )
 
 register(
@@ -65,7 +65,7 @@ register(
     "Structural conditions for references being the inverse of go-to-definition: (R3c) the per-file usage map and its "
     "per-name reverse index are appended in step from one FixtureUsage, removals are paired with a by-file clear of "
     "the reverse index, no other writer exists. The equivalence itself for every (definition, usage) pair is not decided.",
-    [r3.r3c_reverse_index, r3.r3a_clean_before_append, r5.r5c_selfref_pairing, r5.r5g_usage_attribution, r4.r4b_unordered_pick] + CACHE,
+    [r3.r3c_reverse_index, r3.r3a_clean_before_append, r5.r5c_selfref_pairing, r5.r5g_usage_attribution, r4.r4b_unordered_pick, r2.r2h_handlers_pass_canonical_paths, r5.r5j_record_identity, r4.r4e_local_memo_keys] + CACHE,
 )
 
 from . import r3d
@@ -88,7 +88,7 @@ register(
     "Visitor-coverage clauses of index fidelity: (R6a) the yield-line visitor and the generator-status visitor descend "
     "into the same statement-list fields, (R6b) both cover every statement-list field of the AST type universe except "
     "nested scopes. Field values (names, scopes, dependency order, docstrings, usages from marks) are not decided.",
-    [r6.r6a_yield_siblings, r6.r6b_yield, r6.r6d_all_decorators, r6.r6e_visit_order, r6.r6f_any_visitor_returns_true_only, r9.r9_char_count_plus_bytes, r8.r8d_decorator_keywords, r3.r3a_clean_before_append, r3.r3b_failure_path_readonly],
+    [r6.r6a_yield_siblings, r6.r6b_yield, r6.r6d_all_decorators, r6.r6e_visit_order, r6.r6f_any_visitor_returns_true_only, r9.r9_char_count_plus_bytes, r8.r8d_decorator_keywords, r3.r3a_clean_before_append, r3.r3b_failure_path_readonly, r3.r3i_every_analysis_parses],
 )
 
 register(
@@ -96,7 +96,7 @@ register(
     "Visitor-coverage clauses of undeclared-fixture precision: (R6b) the body visitors descend into every nested "
     "statement list, (R6c) every name-binding form of the language is read by the local-variable collector and all "
     "parameter kinds are enumerated. The quick-fix text edit is a string-value property and is not decided.",
-    [r6.r6b_body, r6.r6c_binding_forms, r6.r6g_scope_seeds_after_collector, r10.r10i_no_textual_path_prefix, r3.r3h_wrappers_always_analyse, r8.r11a_analyze_then_publish, r8.r8a_diagnostic_codes],
+    [r6.r6b_body, r6.r6c_binding_forms, r6.r6g_scope_seeds_after_collector, r10.r10i_no_textual_path_prefix, r3.r3h_wrappers_always_analyse, r8.r11a_analyze_then_publish, r8.r8a_diagnostic_codes, r2.r2h_handlers_pass_canonical_paths],
 )
 
 from . import r5
@@ -109,7 +109,7 @@ register(
     "(R5e) the same-file stage takes the last definition; (R10j) the skip filter of import extraction tests the module "
     "string that is recorded (relative imports keep their dots), so a conftest's relative import is not dropped. "
     "That the cascade order and the conftest walk coincide with pytest for every layout is not decided.",
-    [r5.r5a_c01, r5.r5e_same_file_last, r5.r5f_walk_bounds, r10.r10j_filter_sees_recorded_module, r10.r10i_no_textual_path_prefix] + CACHE + [r3.r3a_clean_before_append],
+    [r5.r5a_c01, r5.r5e_same_file_last, r5.r5f_walk_bounds, r10.r10j_filter_sees_recorded_module, r10.r10i_no_textual_path_prefix] + CACHE + [r3.r3a_clean_before_append, r5.r5k_single_source],
 )
 
 register(
@@ -118,23 +118,57 @@ register(
     "site of the cascade, (R5c) every caller that resolves usages pairs the non-excluding and the excluding resolver "
     "under a test of the current definition's name against the usage name (memo lookups included). Cursor-column "
     "arithmetic and chain semantics are not decided.",
-    [r5.r5b_filter_everywhere, r5.r5c_selfref_pairing, r5.r5h_usage_before_definition_line, r5.r5g_usage_attribution, r4.r4b_unordered_pick] + CACHE,
+    [r5.r5b_filter_everywhere, r5.r5c_selfref_pairing, r5.r5h_usage_before_definition_line, r5.r5g_usage_attribution, r4.r4b_unordered_pick, r2.r2h_handlers_pass_canonical_paths, r5.r5j_record_identity, r5.r5k_single_source] + CACHE,
 )
 
 from . import r4
 
 
+def _names(ids):
+    return sorted({x.split("::")[-1] for x in ids})
+
+
+def _c05_fns(ctx):
+    """the sibling resolvers, by role (as in R5d): functions other than the core whose selection sites cover the stages"""
+    from collections import defaultdict
+    core = r5.resolver_core(ctx)
+    by_fn = defaultdict(list)
+    for s in r5._def_sites(ctx):
+        by_fn[s.owner].append(s)
+    out = []
+    for fid, ss in by_fn.items():
+        if core is not None and fid == core.id:
+            continue
+        stages = {r5.stage_of(s) for s in ss}
+        if len(stages & {"same-file", "conftest", "plugin", "third-party"}) >= 3 or ({"same-file", "plugin", "third-party"} <= stages):
+            out.append(fid)
+    return _names(out)
+
+
+def _c16_fns(ctx):
+    """the functions that build or return the cycle / scope-mismatch findings, by the finding types"""
+    import re
+    out = set()
+    pat = re.compile(r"\b(FixtureCycle|ScopeMismatch)\b")
+    for f in ctx.bin.real_fns():
+        if f.kind in ("fn", "method") and pat.search(f.ret or ""):
+            out.add(f.id)
+        for _bb, _si, _pl, rv, _sp in f.assigns():
+            if rv[0] == "agg" and rv[1][0] == "adt" and pat.search(rv[1][1]):
+                out.add(f.root)
+    return _names(out)
+
+
 def _r5a_c05(ctx):
-    return r5.r5a_visibility(ctx, fns=["compute_available_fixtures", "resolve_fixture_for_file"], rule="R5a")
+    return r5.r5a_visibility(ctx, fns=_c05_fns(ctx), rule="R5a")
 
 
 def _r5a_c16(ctx):
-    return r5.r5a_visibility(ctx, fns=["compute_fixture_cycles", "detect_scope_mismatches_in_file"], rule="R5a")
+    return r5.r5a_visibility(ctx, fns=_c16_fns(ctx), rule="R5a")
 
 
 def _r4a_c16(ctx):
-    return r4.r4a_unordered(ctx, only_fns=["compute_fixture_cycles", "detect_scope_mismatches_in_file", "detect_fixture_cycles",
-                                           "detect_fixture_cycles_in_file"], rule="R4a")
+    return r4.r4a_unordered(ctx, only_fns=_c16_fns(ctx), rule="R4a")
 
 
 register(
@@ -143,7 +177,7 @@ register(
     "selection sites cover the same-file / conftest / plugin / third-party stages) use the same selector class per "
     "stage as the navigation cascade, (R5a) none of them selects by name alone. Agreement on every input and the "
     "hover/inlay text are not decided.",
-    [r5.r5d_siblings, _r5a_c05, r5.r5c_selfref_pairing, r5.r5f_walk_bounds, r5.r5g_usage_attribution, r5.r5h_usage_before_definition_line, r10.r10i_no_textual_path_prefix] + CACHE,
+    [r5.r5d_siblings, _r5a_c05, r5.r5c_selfref_pairing, r5.r5f_walk_bounds, r5.r5g_usage_attribution, r5.r5h_usage_before_definition_line, r10.r10i_no_textual_path_prefix, r2.r2h_handlers_pass_canonical_paths, r5.r5j_record_identity, r5.r5k_single_source] + CACHE,
 )
 
 register(
@@ -152,7 +186,7 @@ register(
     "before it is returned, (R4b) first-match exits from such iterations are reviewed for uniqueness of the match, "
     "(R4c) order-sensitive selections over the per-name definition vector (registration order = scan schedule) are "
     "pinned to one file. Ties under non-total sort keys and other channels of nondeterminism are not decided.",
-    [r4.r4a_unordered, r4.r4b_unordered_pick, r5.r4c_order_sensitive, r2.r2a_atomic_ops, r10.r10f_no_short_circuit, r1.r1f_no_try_lock, r4.r4d_sort_keys_are_projections, r3d.r3d_memo_context, r10.r10i_no_textual_path_prefix],
+    [r4.r4a_unordered, r4.r4b_unordered_pick, r5.r4c_order_sensitive, r2.r2a_atomic_ops, r10.r10f_no_short_circuit, r1.r1f_no_try_lock, r4.r4d_sort_keys_are_projections, r3d.r3d_memo_context, r10.r10i_no_textual_path_prefix, r4.r4e_local_memo_keys],
 )
 
 from . import r8
@@ -164,7 +198,7 @@ register(
     "returned in hash order; (R8b) the scope enum follows pytest's order, parse/as_str agree with it and a "
     "ScopeMismatch is built only under `fixture.scope > dependency.scope`. Soundness/completeness of the cycle "
     "search is not decided.",
-    [_r5a_c16, _r4a_c16, r8.r8b_scope_order, r8.r8d_decorator_keywords, r8.r8a_diagnostic_codes, r3.r3a_clean_before_append] + CACHE,
+    [_r5a_c16, _r4a_c16, r8.r8b_scope_order, r8.r8d_decorator_keywords, r8.r8a_diagnostic_codes, r3.r3a_clean_before_append, r1e.r1e_worklist_unbounded] + CACHE,
 )
 
 register(
@@ -173,7 +207,7 @@ register(
     "configuration loader, each Diagnostic and each collector sits on the not-disabled edge of the gate with its own "
     "code; (R11a) in did_open/did_change the analysis is always followed by publishing for the same document. "
     "Equality of the last published set with the latest content for every history is not decided.",
-    [r8.r8a_diagnostic_codes, r8.r11a_analyze_then_publish, r2.r2e_canonical_read_keys, r2.r2g_canonicaliser_whole_path, r3.r3a_clean_before_append] + CACHE,
+    [r8.r8a_diagnostic_codes, r8.r11a_analyze_then_publish, r2.r2e_canonical_read_keys, r2.r2g_canonicaliser_whole_path, r3.r3a_clean_before_append, r2.r2h_handlers_pass_canonical_paths, r8.r8g_config_text_goes_to_the_parser] + CACHE,
 )
 
 register(
@@ -184,7 +218,7 @@ register(
     "like the server. Equality of counts with the server and byte-identical output are not decided.",
     [r8.r11b_exit_status, r8.r11d_json_output, r8.r11e_report_root_is_scan_root,
      lambda ctx: r4.r4a_unordered(ctx, only_fns=["get_unused_fixtures", "print_fixtures_tree", "compute_definition_usage_counts"], rule="R4a"),
-     r5.r5c_selfref_pairing, r4.r4d_sort_keys_are_projections],
+     r5.r5c_selfref_pairing, r4.r4d_sort_keys_are_projections, r4.r4e_local_memo_keys],
 )
 
 register(
@@ -192,7 +226,7 @@ register(
     "Structural clauses of completion: (R11c) every push into the per-file view is guarded by the seen-set (one entry "
     "per name); (R8c) the textual fallback recognises every decorator module the AST recogniser accepts. Context "
     "classification per line, the offered set algebra and sort priorities are not decided.",
-    [r8.r11c_one_entry_per_name, r8.r8c_text_fallback, r8.r8e_text_fallback_on_every_miss, r8.r8f_proximity_precedence, r5.r5f_walk_bounds] + CACHE,
+    [r8.r11c_one_entry_per_name, r8.r8c_text_fallback, r8.r8e_text_fallback_on_every_miss, r8.r8f_proximity_precedence, r5.r5f_walk_bounds, r2.r2h_handlers_pass_canonical_paths] + CACHE,
 )
 
 from . import r7
@@ -217,7 +251,7 @@ register(
     "of the value given to WalkDir::new) and the directory filter is depth-aware; (R10b) the walk's file-name predicate "
     "and the import-scan seed predicate use the same literal tests; (R10f) the parallel phase uses a "
     "non-short-circuiting consumer. That exactly pytest's file set is indexed for every tree is not decided.",
-    [r10.r10a_relocation, r10.r10a2_classification_relative, r10.r10b_filename_predicates, r10.r10f_no_short_circuit, r1.r1f_no_try_lock, r10.r10k_config_location, r8.r11e_report_root_is_scan_root, r10.r10l_skip_predicate_exact],
+    [r10.r10a_relocation, r10.r10a2_classification_relative, r10.r10b_filename_predicates, r10.r10f_no_short_circuit, r1.r1f_no_try_lock, r10.r10k_config_location, r8.r11e_report_root_is_scan_root, r10.r10l_skip_predicate_exact, r8.r8g_config_text_goes_to_the_parser],
 )
 
 register(
@@ -228,7 +262,7 @@ register(
     "extends; (R1d) import recursion is guarded by a visited set; (R10j) the import skip filter tests the recorded "
     "module string. Reachability closure on arbitrary graphs and venv layouts are not decided.",
     [r10.r10c_constructors_agree, r10.r10d_mark_before_analyse, r10.r10e_walkers, r10.r10g_no_stale_snapshot, r1.r1d_recursion, r3d.r3d_memo_context,
-     r10.r10j_filter_sees_recorded_module, r10.r10m_import_reads_are_transitive],
+     r10.r10j_filter_sees_recorded_module, r10.r10m_import_reads_are_transitive, r3d.r3d_hit, r3d.r3d_stamp_origin, r3d.r3d_bump, r3d.r3d_readset, r3d.r3d_membership_gate],
 )
 
 from . import r9
@@ -239,5 +273,5 @@ register(
     "str::find results) must not reach Position.character (UTF-16) unconverted, (R9b) the request's UTF-16 cursor "
     "column must not be compared with byte columns or used as a character index. Concrete token positions (off-by-one, "
     "range containment, duplicates) are value facts and are not decided.",
-    [r9.r9_bytes_to_utf16, r9.r9_utf16_vs_bytes, r9.r9_line_base, r9.r9_char_count_plus_bytes, r5.r5i_per_document_items_pinned, r3d.r3d_stamp_origin, r3.r3a_clean_before_append],
+    [r9.r9_bytes_to_utf16, r9.r9_utf16_vs_bytes, r9.r9_line_base, r9.r9_char_count_plus_bytes, r5.r5i_per_document_items_pinned, r3d.r3d_stamp_origin, r3.r3a_clean_before_append, r2.r2h_handlers_pass_canonical_paths],
 )
